@@ -37,7 +37,25 @@ where
     let qs = parse_qs(t);
     t.bar();
     install_pivots(t);
+    // presentation of the q array (same logical contents), see common::present; the padding
+    // entries are out-of-range quantiles, which must never be looked at
+    let il = t.try_next().map(|x| x.parse::<usize>().expect("il")).unwrap_or(0);
+    let junk = |k: usize, _: &N64| n64(if k % 2 == 0 { 7.5 } else { -3.25 });
     let r = guarded(|| match routine {
+        "quantiles" if il > 0 => present(&qs, il, junk, |qv| {
+            parent
+                .view_mut()
+                .quantiles_axis_mut(Axis(axis), &qv, interp)
+                .map(|a| show_arr(&a.into_dyn()))
+        }),
+        "quantiles1" if il > 0 => present(&qs, il, junk, |qv| {
+            parent
+                .view_mut()
+                .into_dimensionality::<Ix1>()
+                .unwrap()
+                .quantiles_mut(&qv, interp)
+                .map(|a| show_arr(&a.into_dyn()))
+        }),
         "quantiles" => parent
             .view_mut()
             .quantiles_axis_mut(Axis(axis), &Array1::from(qs.clone()), interp)
